@@ -27,7 +27,7 @@ CHECKS = {
     "C17": dict(
         cat="exploration", ref="DESIGN.md §5 C17",
         text="Seeded exploration of PONG vote sequences (voter, address, simulated time) against a real service: minimum 2..6, vote durations 8-120 s, eligible and ineligible voters, opinion changes, liars below the minimum, idle gaps up to a whole vote duration; whenever the advertised UDP address changes the harness's vote ledger must justify it (minimum reached, clear-majority margin over every rival), the sequence number must have grown, the record must verify and exactly one SocketUpdated event per change must have been emitted.",
-        note="Trusted: the harness's vote ledger (latest unexpired vote per eligible voter). IPv4 mode only.",
+        note="Trusted: the harness's vote ledger (latest unexpired vote per eligible voter). IPv4 and dual-stack mode.",
         technique="deterministic simulation (W-S service world, scripted handler): simulated time around vote expiry, justification oracle at every address change"),
     "C20": dict(
         cat="exploration", ref="DESIGN.md §5 C20",
@@ -101,6 +101,25 @@ CHECKS = {
         technique="deterministic simulation (W-T table world): generated op histories, reference full-scan oracle"),
 }
 
+FULL_STACK = " A further scenario runs 2-5 complete Discv5 nodes (public API, service, handler, sessions, tables, query pool, receive path; all honest) on the virtual network with drop / duplicate / delay / bit-flip / late-replay / partition / node-restart faults and tiny session caches or short session lifetimes as per-run knobs"
+EXTRA = {
+    "C01": " In a third of the runs a genuine peer lies about who it is after an honest handshake: it answers the handler's own record request (FINDNODE [0] to a contact dialled without a record) with a validly signed record of another identity.",
+    "C02": " Exploration also lets a party with keys of its own answer a WHOAREYOU in the challenged peer's name from the peer's address.",
+    "C03": " Exploration also holds genuine handshakes back until around or past the expiry of the challenge they answer while further undecryptable packets in the sender's name arrive.",
+    "C04": " Session-cache capacity (1-2) and session lifetime (0.3-5 s) are per-run knobs, so sessions are evicted or expire in mid-exchange.",
+    "C09": " The pool world also checks the query timeout itself (a poll that examined every query must not leave one in the pool that is past the timeout)." + FULL_STACK + ": every API future must return within a bound after the faults stop.",
+    "C10": FULL_STACK + ": every find_node result is checked at the API (distinct, not the local node, increasing distance, at most 16, each id belongs to a node that put a NODES response to the caller on the wire).",
+    "C11": FULL_STACK + ": the ban list must stay empty.",
+    "C12": " Record shapes include an IPv4 address without UDP port. The identity world includes a peer presenting another identity's record in answer to the handler's own record request.",
+    "C13": " Session-cache capacity and lifetime are per-run knobs; a banned-peer-bypass scenario checks that an exemption really lets a banned peer's answer through and nothing else." + FULL_STACK + ": all exemption maps must be empty once every API call returned and the address has been silent for a timeout.",
+    "C14": FULL_STACK + ": every NODES and PONG on the wire is decrypted with the key log and checked (requested distances only, never the requester's record, only table entries or the own record, PONG reports the requester's address and the current sequence number).",
+    "C15": " A third scenario combines both: a full cache in which one session expires (its peer possibly crashed, the expired entry possibly looked up again) must drop that one, not a live one, when a new peer arrives.",
+    "C16": " An eighth of the IPv4 records carry an address without a UDP port, another eighth IPv4 and IPv6 endpoints together.",
+    "C17": " Dual-stack mode (per-family votes) is included.",
+    "C19": FULL_STACK + ": the same uniqueness oracle over all nodes' traffic.",
+    "C20": " The application may sit on requests for 50 ms to 10 min of simulated time." + FULL_STACK + ": TALKRESP packets on the wire never outnumber the TalkRequest events, carry a payload the application produced, and match the events in number at the end (unless the node restarted or its handler dropped a response for lack of a session).",
+}
+
 NOT_APPLICABLE = {
     "C05": "pure function of (byte string, node id): no schedule, clock, fault or interleaving in the statement, so not a simulation target (DESIGN.md §7); corrupted/misdirected real datagrams on the receive path are decided under C02",
     "C06": "pure function of its input bytes: no schedule, clock, fault or interleaving in the statement, so not a simulation target (DESIGN.md §7)",
@@ -119,7 +138,7 @@ for pid in props:
             "evidence_file": f"/verif/evidence/{pid}.json",
             "replay_cmd_template": f"./check {pid} --replay {{path}}",
             "engine": "dsim",
-            "level_claimed": {"category": c["cat"], "text": c["text"], "design_ref": c["ref"]},
+            "level_claimed": {"category": c["cat"], "text": c["text"] + EXTRA.get(pid, ""), "design_ref": c["ref"]},
             "level_note": c["note"],
             "technique": c["technique"],
         })
